@@ -7,7 +7,8 @@ from ..harness import dispose
 PROPERTY = "C19"
 LEVEL = "exploration"
 RULE = ("histories of up to 40 operations against model counters: request(vector, hook decision decline/value), "
-        "set_trained(bool), request through Job.evaluate; surrogate = SurrogateModelScikit with a stub regressor (the "
+        "set_trained(bool), request through Job.evaluate, attach/remove the predict hook on the problem instance, "
+        "change train_step; surrogate = SurrogateModelScikit with a stub regressor (the "
         "real train() decides `trained`) or a minimal SurrogateModelPredict subclass, train_step in {-1,1,2,3,10}, "
         "problems with and without a predict hook; the pass-through SurrogateModelEval as its own machine. "
         "Non-trivial = a history with >= 1 prediction, >= 1 declined prediction after training and >= 1 retraining")
@@ -22,9 +23,15 @@ def histories(draw):
     ts = draw(st.sampled_from([-1, 1, 2, 3, 10]))
     ops = []
     for _ in range(draw(st.integers(1, 40))):
-        o = draw(st.sampled_from(["req", "req", "req", "req", "job", "trained"]))
+        o = draw(st.sampled_from(["req", "req", "req", "req", "req", "req", "job", "job", "trained", "hook", "ts"]))
         if o == "trained":
             ops.append({"op": "trained", "v": draw(st.booleans())})
+        elif o == "hook":
+            # the predict hook is attached to / removed from the problem *instance* while requests are being served
+            ops.append({"op": "hook", "v": draw(st.booleans())})
+        elif o == "ts":
+            # train_step is a plain attribute and is changed between requests (the shipped SMT example does so)
+            ops.append({"op": "ts", "v": draw(st.sampled_from([-1, 1, 2, 3, 4, 5]))})
         else:
             ops.append({"op": o, "x": [draw(st.integers(-5, 5)) / 2.0, draw(st.integers(-5, 5)) / 2.0],
                         # "a value" includes falsy ones: an empty list, zero
@@ -74,15 +81,18 @@ def check_history(case):
     if case.get("constrained"):
         P.evaluate_inequality_constraints = lambda self, x: [float(x[0])]
 
+    def hook_fn(individual):
+        hook_log.append(list(individual.vector))
+        d = state["decision"]
+        if d == "decline":
+            return None
+        # always a cost *list*, like the objective's return value (a bare number would not survive Job.evaluate)
+        state["pred_obj"] = {"value": [123.0 + len(hook_log)], "empty-list": [], "zero-list": [0.0]}[d]
+        return state["pred_obj"]
+
     class PH(P):
         def predict(self, individual):
-            hook_log.append(list(individual.vector))
-            d = state["decision"]
-            if d == "decline":
-                return None
-            # always a cost *list*, like the objective's return value (a bare number would not survive Job.evaluate)
-            state["pred_obj"] = {"value": [123.0 + len(hook_log)], "empty-list": [], "zero-list": [0.0]}[d]
-            return state["pred_obj"]
+            return hook_fn(individual)
 
     trains = []
 
@@ -123,13 +133,28 @@ def check_history(case):
             sur.train_step = case["train_step"]
             prob.surrogate = sur
             job = Job(prob)
-        m = {"trained": False, "eval": 0, "pred": 0, "x": [], "y": [], "trains": 0, "req": 0}
+        m = {"trained": False, "eval": 0, "pred": 0, "x": [], "y": [], "trains": 0, "req": 0, "hook": case["hook"],
+             "ts": case["train_step"]}
+        edited = set()
         seen_pred = seen_decl_after = seen_retrain = False
         for k, op in enumerate(case["ops"]):
             if op["op"] == "trained":
                 with guard("predicting"):
                     sur.trained = op["v"]
                 m["trained"] = op["v"]
+                continue
+            if op["op"] == "hook":
+                if op["v"]:
+                    prob.predict = hook_fn
+                elif "predict" in prob.__dict__:
+                    del prob.predict
+                m["hook"] = op["v"] or case["hook"]          # a hook defined in the class body cannot be taken away
+                edited.add("hook-edited")
+                continue
+            if op["op"] == "ts":
+                sur.train_step = op["v"]
+                m["ts"] = op["v"]
+                edited.add("train_step-edited")
                 continue
             state["decision"] = op["hook"]
             state["pred_obj"] = None
@@ -142,7 +167,7 @@ def check_history(case):
                 else:
                     ret = prob.surrogate.evaluate(ind)
             m["req"] += 1
-            ask_hook = m["trained"] and case["hook"]
+            ask_hook = m["trained"] and m["hook"]
             predicted = ask_hook and op["hook"] != "decline"
             used = state["pred_obj"] is not None and ret is state["pred_obj"]
             if used and not predicted:
@@ -170,7 +195,7 @@ def check_history(case):
                 m["eval"] += 1
                 m["x"].append(list(op["x"]))
                 m["y"].append(log[-1][1])
-                if case["train_step"] != -1 and m["eval"] % case["train_step"] == 0:
+                if m["ts"] != -1 and m["eval"] % m["ts"] == 0:
                     m["trains"] += 1
                     if m["trains"] > 1:
                         seen_retrain = True
@@ -178,7 +203,7 @@ def check_history(case):
             got_tr = len(stub.fits) if stub is not None else len(trains)
             if got_tr != m["trains"]:
                 raise Violation("predicting", "retrain-schedule", "step %d: %d trainings after %d true evaluations with "
-                                "train_step=%d, expected %d" % (k, got_tr, m["eval"], case["train_step"], m["trains"]))
+                                "train_step=%d, expected %d" % (k, got_tr, m["eval"], m["ts"], m["trains"]))
             if sur.eval_counter != m["eval"] or sur.predict_counter != m["pred"]:
                 raise Violation("predicting", "counters", "step %d: eval/predict counters %d/%d, expected %d/%d" % (
                     k, sur.eval_counter, sur.predict_counter, m["eval"], m["pred"]))
@@ -193,14 +218,14 @@ def check_history(case):
                 raise Violation("predicting", "trained-flag", "step %d: trained=%r expected %r" % (
                     k, sur.trained, m["trained"]))
             if stub is not None and stub.fits and stub.fits[-1] != (len(m["x"]), len(m["y"])) and got_tr == m["trains"] \
-                    and case["train_step"] != -1 and m["eval"] % case["train_step"] == 0 and not predicted:
+                    and m["ts"] != -1 and m["eval"] % m["ts"] == 0 and not predicted:
                 raise Violation("predicting", "fit-data", "fit saw %r samples, training set has %d" % (
                     stub.fits[-1], len(m["x"])))
     finally:
         dispose(prob)
     return {"nt": seen_pred and seen_decl_after and seen_retrain,
             "classes": [case["kind"], "ts%d" % case["train_step"], "hook" if case["hook"] else "no-hook"] + (
-                ["predicted"] if seen_pred else []) + (["retrained"] if seen_retrain else [])}
+                ["predicted"] if seen_pred else []) + (["retrained"] if seen_retrain else []) + sorted(edited)}
 
 
 @st.composite
